@@ -214,7 +214,80 @@ func checkPartition(l *layout, f *mp4.File) bool {
 			}
 		}
 	}
+	if okAll && !l.big {
+		okAll = checkBytesAtPositions(l, f)
+	}
 	return okAll
+}
+
+// checkBytesAtPositions (C12_partition_bytes on the real code): the recorded positions are byte offsets into the
+// input: the box header found at MediaSegment.StartPos is that of the segment's first box; the children of a
+// fragment lie back to back from Fragment.StartPos on (when nothing else sits between them in the file), each
+// with its own type and Size() in the header found there; Moof.StartPos is the moof's offset, the mdat payload
+// starts at PayloadAbsoluteOffset and holds exactly the bytes found there.
+func checkBytesAtPositions(l *layout, f *mp4.File) bool {
+	data := l.bytes()
+	w := shortWitness(l)
+	hdrAt := func(pos uint64) (string, uint64, bool) {
+		if pos+8 > uint64(len(data)) {
+			return "", 0, false
+		}
+		sz := uint64(binary.BigEndian.Uint32(data[pos:]))
+		if sz == 1 {
+			if pos+16 > uint64(len(data)) {
+				return "", 0, false
+			}
+			sz = binary.BigEndian.Uint64(data[pos+8:])
+		}
+		return string(data[pos+4 : pos+8]), sz, true
+	}
+	same := func(b mp4.Box, pos uint64) bool {
+		typ, sz, ok := hdrAt(pos)
+		return ok && typ == b.Type() && sz == b.Size()
+	}
+	idx := make(map[mp4.Box]int)
+	for i, c := range f.Children {
+		idx[c] = i
+	}
+	for si, s := range f.Segments {
+		var first mp4.Box
+		switch {
+		case s.Styp != nil:
+			first = s.Styp
+		case len(s.Fragments) > 0 && len(s.Fragments[0].Children) > 0:
+			first = s.Fragments[0].Children[0]
+		}
+		if first != nil && !same(first, s.StartPos) {
+			fail("File.AddChild", "segment-startpos-bytes", w, fmt.Sprintf("the box at byte offset StartPos=%d of segment %d is not its first box (%s, %d bytes)", s.StartPos, si, first.Type(), first.Size()))
+			return false
+		}
+		for fi, fr := range s.Fragments {
+			off := fr.StartPos
+			for k, c := range fr.Children {
+				if k > 0 && idx[c] != idx[fr.Children[k-1]]+1 {
+					break // something else lies between the children in the file: not contiguous
+				}
+				if !same(c, off) {
+					fail("File.AddChild", "fragment-child-bytes", w, fmt.Sprintf("segment %d fragment %d child %d (%s, %d bytes) is not the box at byte offset %d", si, fi, k, c.Type(), c.Size(), off))
+					return false
+				}
+				if m, isMoof := c.(*mp4.MoofBox); isMoof && m.StartPos != off {
+					fail("File.AddChild", "moof-startpos-bytes", w, fmt.Sprintf("moof.StartPos %d, the moof lies at byte offset %d", m.StartPos, off))
+					return false
+				}
+				if d, isMdat := c.(*mp4.MdatBox); isMdat {
+					po := d.PayloadAbsoluteOffset()
+					if po != off+d.HeaderSize() || po+uint64(len(d.Data)) > uint64(len(data)) || !bytes.Equal(d.Data, data[po:po+uint64(len(d.Data))]) ||
+						uint64(len(d.Data))+d.HeaderSize() != d.Size() {
+						fail("File.AddChild", "mdat-payload-bytes", w, fmt.Sprintf("mdat of segment %d fragment %d: payload offset %d (box at %d, header %d), %d payload bytes do not match the input", si, fi, po, off, d.HeaderSize(), len(d.Data)))
+						return false
+					}
+				}
+				off += c.Size()
+			}
+		}
+	}
+	return true
 }
 
 func flagsSuffix(l *layout) string {
